@@ -67,7 +67,7 @@ def lib_sources():
 class Variant:
     """A build variant: '<base>[+mod]*'.
     base: prod | asan | msan | tsan | clang | tsanclang | asanclang | gcc
-    mods: W32 UNAL0 NEUTRAL NOSIMD NOAVX2 NOBUILTIN O0 O1 O2 O3 Os"""
+    mods: W32 UNAL0 NEUTRAL NOSIMD NOAVX2 NOBUILTIN NATIVE O0 O1 O2 O3 Os Og"""
 
     def __init__(self, name):
         self.name = name
@@ -76,6 +76,7 @@ class Variant:
         self.mods = parts[1:]
         self.cfg = {}
         self.nobuiltin = False
+        self.extra = []
         opt = None
         for m in self.mods:
             if m == "W32": self.cfg["64BIT"] = 0
@@ -83,8 +84,9 @@ class Variant:
             elif m == "NEUTRAL": self.cfg.update({"LITTLE_ENDIAN": 0, "VEC128_MATH": 0, "VEC256_MATH": 0})
             elif m == "NOSIMD": self.cfg.update({"VEC128_MATH": 0, "VEC256_MATH": 0})
             elif m == "NOAVX2": self.cfg["VEC256_MATH"] = 0
+            elif m == "NATIVE": self.extra.append("-march=native")     # user-style flags applied to every file: every __SSE3__/__SSSE3__/__AVX2__-conditional arm of the sources is compiled in
             elif m == "NOBUILTIN": self.nobuiltin = True     # memcpy/memset stay calls, so sanitizer interceptors see them
-            elif re.fullmatch(r"O[0123s]", m): opt = "-" + m
+            elif re.fullmatch(r"O[0123sg]", m): opt = "-" + m
             else: raise HarnessError("unknown variant modifier " + m)
         mak = options_mak()
         common = [f for f in mak["COMMON"] if not f.startswith("-O")]
@@ -111,6 +113,11 @@ class Variant:
         else:
             raise HarnessError("unknown variant base " + b)
         if opt: o = [opt]
+        # diagnostic mode (tools/coverage.py): gcc builds without sanitizer are compiled with gcov instrumentation
+        self.cov = bool(os.environ.get("VERIF_COV")) and b in ("prod", "gcc")
+        if self.cov:
+            self.san = ["--coverage", "-DVH_COVERAGE"]
+            if not opt: o = ["-O0"]
         self.opt = o
         # valgrind 3.19 cannot read clang 14's default DWARF 5
         self.dbg = ["-g", "-gdwarf-4"] if self.cc == "clang" else ["-g"]
@@ -119,7 +126,7 @@ class Variant:
 
     def lib_flags(self, src):
         mak = options_mak()
-        fl = list(self.opt) + self.dbg + self.common + mak["STDC"] + self.san + self.defs + (["-fno-builtin"] if self.nobuiltin else [])
+        fl = list(self.opt) + self.dbg + self.common + mak["STDC"] + self.san + self.defs + (["-fno-builtin"] if self.nobuiltin else []) + self.extra
         if "vec256" in src:
             fl = mak["V256"] + fl
         elif "vec128" in src:
@@ -448,3 +455,32 @@ def finish(out, extra_coverage=None):
         for e in (out.harness_errors + out.inconclusive)[:5]:
             print("  inconclusive/harness: " + json.dumps(e)[:1500])
     return rc
+
+
+def collect_coverage(dest):
+    """VERIF_COV diagnostic: run gcov over every instrumented object of this process and write per-file line counts
+    for the sources that belong to the repository (library, example tools, Arduino classes)."""
+    import gzip, glob
+    agg = {}
+    funcs = {}
+    bydir = {}
+    for g in glob.glob(os.path.join(workdir(), "**", "*.gcda"), recursive=True):
+        bydir.setdefault(os.path.dirname(g), []).append(g)
+    for d, gc in sorted(bydir.items()):
+        for g in gc:
+            sh(["gcov", "-j", g], cwd=d)
+        for jf in glob.glob(os.path.join(d, "*.gcov.json.gz")):
+            j = json.load(gzip.open(jf))
+            for f in j.get("files", []):
+                path = os.path.normpath(os.path.join(j.get("current_working_directory", d), f["file"]))
+                if not path.startswith(REPO + "/"):
+                    continue
+                name = os.path.relpath(path, REPO)
+                a = agg.setdefault(name, {})
+                for ln in f.get("lines", []):
+                    a[ln["line_number"]] = a.get(ln["line_number"], 0) + ln["count"]
+                for fn in f.get("functions", []):
+                    k = name + ":" + fn.get("demangled_name", fn["name"])
+                    funcs[k] = funcs.get(k, 0) + fn["execution_count"]
+            os.unlink(jf)
+    json.dump({"lines": {k: {str(l): c for l, c in sorted(v.items())} for k, v in agg.items()}, "functions": funcs}, open(dest, "w"))
